@@ -954,6 +954,14 @@ func (fc *FnCtx) verify() {
 			keep = fc.keepPrefixes(con)
 		}
 		keep = append(keep, fc.keepPrefixesOf(con, con.AlsoKeep)...)
+		// names under a kept prefix that this function never mentions change only
+		// through whole-heap havocs (callees with `modifies all/allbut`, unmodelled
+		// calls): every such havoc on a reachable path must itself keep the prefix
+		for _, kp := range keep {
+			if t := fc.epochKept(st.ep, kp); t != "true" {
+				fc.oblige(fr, "frame", "allbut: "+kp+"* survives every whole-heap havoc (callee keep-lists)", retReach, t, false, nil)
+			}
+		}
 		names := make([]string, 0, len(fc.sorts))
 		for n := range fc.sorts {
 			names = append(names, n)
@@ -974,6 +982,29 @@ func (fc *FnCtx) verify() {
 			}
 		}
 	}
+}
+
+// epochKept: the condition under which every heap name with the given prefix
+// has been inherited unchanged from the function's entry epoch by epoch e.
+func (fc *FnCtx) epochKept(e *epoch, prefix string) string {
+	if e == fc.ep0 {
+		return "true"
+	}
+	if e.l != nil {
+		l, r := fc.epochKept(e.l, prefix), fc.epochKept(e.r, prefix)
+		if l == r {
+			return l
+		}
+		return tIte(e.cond, l, r)
+	}
+	if e.parent != nil {
+		for _, p := range e.keep {
+			if strings.HasPrefix(prefix, p) {
+				return fc.epochKept(e.parent, prefix)
+			}
+		}
+	}
+	return "false"
 }
 
 func shortFnName(fn *ssa.Function) string {
